@@ -1317,7 +1317,7 @@ def judge(ctx: Ctx, st: Optional[LeanStatus], res: Result, cases: List[Dict[str,
     irs = corr_packages(ctx, st, res, cases, label)
     for case, ir in zip(cases, irs):
         if ir.get("fragments") and not deps_acyclic(ir):
-            # hypothesis `Proved_08` of C08_partial (implied by GraphQL validation) does not hold on a validated document
+            # the consequence of `NoFragmentCycles` that Lean derives (deps_acyclic_of_valid) does not hold on a validated document
             res.mismatches.append(Mismatch("assumption:dependency-dict-acyclic", {"case": slim(case)}, "cyclic", "assumed acyclic"))
         if ir.get("fragments"):
             res.count(f"{label}:dependency-dict-acyclic (checked)")
@@ -1358,7 +1358,7 @@ def run(ctx: Ctx, st: Optional[LeanStatus]) -> Result:
         "'that class alone validates the same payload' (fragment_class_validates, should-tier): needs the pydantic reference semantics of C01; judged only by FragClass.model_validate(sub_payload) on the real packages",
         "'the object returned is an instance': Lean proves the class statement lists the fragment class as a base (Spec.Py.IsSubclass); that pydantic returns an object of exactly that class at that position is observed (isinstance on returned objects)",
         "unparse -> autoflake -> isort -> black -> CPython import + pydantic class creation of the emitted modules: observed on the generated packages; represented in Lean by Spec.Py.Loads (bases bound) and Spec.Py.mroOK (C3), both validated against CPython, not verified",
-        "hypothesis Proved_08 (dependency dict acyclic) is implied by graphql-core's NoFragmentCycles rule; checked on every observed dependency dict, not derived in Lean",
+        "hypothesis NoFragmentCycles of C08_partial is graphql-core's validation rule of that name (run by get_graphql_queries before any generator); its consequence 'the dependency dict is acyclic' is derived in Lean (deps_acyclic_of_valid) and additionally checked on every observed dependency dict",
     ]
     res.assumptions += [
         "graphql-core validation (all specified rules but NoUnusedFragments) runs before any generator: documents with fragment cycles / unknown fragments / duplicate names never reach the modelled code",
